@@ -638,7 +638,8 @@ func (d *driver) runWorld(wi int, long bool, scheds [][]step) {
 			rr := rand.New(rand.NewSource(vh.Seed()*31337 + int64(wi*100000+si*1000+k)))
 			o := w.life(images[k-1], second, remote, nil, rr, map[bool]float64{true: 0.5, false: 0}[second], true)
 			d.emitOutcome(w, o, cctx, ref, true)
-			d.res.Count([]any{"crash", c, o.stage0, facts[k-1].Frontier > 0, facts[k-1].BlkAny, remote != w.N})
+			d.res.Count([]any{"crash", c, o.stage0, facts[k-1].Frontier > 0, facts[k-1].BlkAny, remote != w.N, facts[k-1].Trap,
+				facts[k-1].Stored * 8 / max(len(w.nodes), 1), facts[k-1].Complete * 8 / max(len(w.nodes), 1), long})
 			d.res.Inc("crash_points", 1)
 			d.res.Inc("crash_"+c, 1)
 			if facts[k-1].Trap && facts[k-1].Jst == "none" && facts[k-1].Cur <= 0 {
